@@ -525,6 +525,8 @@ fn root_poison(node: &Node, t: usize, spec: &WorldSpec, f: impl Fn(bool) -> bool
         Node::POwnBoxed(p) => Some((PoisonId::Coll(t, vec![]), f(p.is_poisoned()))),
         Node::POwnRetry(p) => Some((PoisonId::Coll(t, vec![]), f(p.is_poisoned()))),
         Node::POwnOwned(p) => Some((PoisonId::Coll(t, vec![]), f(p.is_poisoned()))),
+        Node::PDBoxed(p) => Some((PoisonId::Coll(t, vec![]), f(p.is_poisoned()))),
+        Node::PDRetry(p) => Some((PoisonId::Coll(t, vec![]), f(p.is_poisoned()))),
         Node::Tagged(n, _) => root_poison(n, t, spec, f),
         _ => None,
     }
@@ -564,6 +566,14 @@ fn root_clear(node: &Node, t: usize, spec: &WorldSpec) -> Option<PoisonId> {
             Some(PoisonId::Coll(t, vec![]))
         }
         Node::POwnOwned(p) => {
+            p.clear_poison();
+            Some(PoisonId::Coll(t, vec![]))
+        }
+        Node::PDBoxed(p) => {
+            p.clear_poison();
+            Some(PoisonId::Coll(t, vec![]))
+        }
+        Node::PDRetry(p) => {
             p.clear_poison();
             Some(PoisonId::Coll(t, vec![]))
         }
@@ -806,6 +816,11 @@ impl<'r, 'a> Th<'r, 'a> {
             Node::POwnRetry(c) => self.run_api(&**c, ctx),
             Node::POwnOwned(c) => self.run_api(&**c, ctx),
             Node::Tagged(n, _) => self.dispatch(n, ctx),
+            Node::DRef(c) => self.run_api(c, ctx),
+            Node::DBoxed(c) => self.run_api(c, ctx),
+            Node::DRetry(c) => self.run_api(&**c, ctx),
+            Node::PDBoxed(c) => self.run_api(&**c, ctx),
+            Node::PDRetry(c) => self.run_api(&**c, ctx),
         }
     }
 
